@@ -756,7 +756,39 @@ func c05Crafted(r *kit.Rand) ([]byte, string) {
 	levels := kit.Pick(r, []int{8, 20, 40, 64, 200})
 	fan := kit.Pick(r, []int{2, 2, 3, 16})
 	what := ""
-	switch k := r.Intn(13); k {
+	switch k := r.Intn(14); k {
+	case 13: // thousands of streams whose /Length is the head of a long chain of reference-valued objects
+		n := kit.Pick(r, []int{50, 1000, 5000, 8000})
+		m := kit.Pick(r, []int{50, 1000, 5000, 8000})
+		var b bytes.Buffer
+		var offs []int
+		obj := func(format string, args ...any) {
+			offs = append(offs, b.Len())
+			fmt.Fprintf(&b, "%d 0 obj\n", len(offs))
+			fmt.Fprintf(&b, format, args...)
+			b.WriteString("\nendobj\n")
+		}
+		b.WriteString("%PDF-1.7\n")
+		obj("<</Type/Catalog/Pages 2 0 R>>")
+		obj("<</Type/Pages/Kids[]/Count 0>>")
+		first := 3
+		for i := 0; i < n; i++ {
+			if i == n-1 {
+				obj("3")
+			} else {
+				obj("%d 0 R", first+i+1)
+			}
+		}
+		for i := 0; i < m; i++ {
+			obj("<</Length %d 0 R>>\nstream\nabc\nendstream", first)
+		}
+		x := b.Len()
+		fmt.Fprintf(&b, "xref\n0 %d\n0000000000 65535 f \n", len(offs)+1)
+		for _, o := range offs {
+			fmt.Fprintf(&b, "%010d 00000 n \n", o)
+		}
+		fmt.Fprintf(&b, "trailer\n<</Size %d/Root 1 0 R>>\nstartxref\n%d\n%%%%EOF\n", len(offs)+1, x)
+		return b.Bytes(), fmt.Sprintf("length-reference-chain(chain=%d,streams=%d)", n, m)
 	case 12: // image XObjects whose alternates are images with alternates, and so on; every one of them fails to decode in the end
 		depth := kit.Pick(r, []int{3, 6, 12, 40})
 		width := kit.Pick(r, []int{1, 2, 8})
@@ -1303,6 +1335,11 @@ func c05Run(c *kit.Case, mon *kit.Monitor, data []byte, what string) {
 	shape := "few-object-headers"
 	if nobj >= 256 {
 		shape = "objects>=256"
+	}
+	if strings.HasPrefix(what, "crafted:") {
+		// hand-made, syntactically complete files: none of them is an input of
+		// finding D31 (which is keyed by the shape)
+		shape = "crafted"
 	}
 	st.mon, st.shape = mon, shape
 	u := mon.Guard(fmt.Sprintf("%s:%d %s (%d bytes, input saved as %s)", c.Phase, c.Index, what, len(data), path), func() {
